@@ -35,6 +35,9 @@ func genC11(t *rapid.T) c11Case {
 		{{Kind: "mutident", R: 0, Title: "Alice Renamed"}, {Kind: "push", R: 0}, {Kind: "pull", R: 1}},
 		{{Kind: "new", R: 0, Title: "Feature: dark mode", Message: "please", Time: 1_700_000}, {Kind: "push", R: 0}, {Kind: "cachesize", R: 1, Size: 1}, {Kind: "pull", R: 1}, edit(1, "close", "")},
 		{edit(0, "labels", ""), {Kind: "push", R: 0}, {Kind: "pull", R: 1}, {Kind: "reopen", R: 1}},
+		// both edit the same bug; the other user merges and publishes; this user fast-forwards to that merge commit and
+		// edits on top of it through the cache
+		{edit(0, "comment", "mine, before the other one merges"), {Kind: "push", R: 0}, edit(1, "comment", "theirs, concurrent"), {Kind: "pull", R: 1}, {Kind: "push", R: 1}, {Kind: "pull", R: 0}, edit(0, "title", "Crash on start (after their merge)")},
 		// the cache is built from git by the running process (lost or outdated cache files), which then pulls an update and edits
 		{edit(0, "comment", "pushed while the other cache is rebuilt"), {Kind: "push", R: 0}, {Kind: "rebuild", R: 1}, {Kind: "pull", R: 1}, edit(1, "comment", "after rebuild and pull")},
 	}
